@@ -173,6 +173,7 @@ fn main() {
             cov.sample(Json::from(s.log.first().cloned().unwrap_or_default()));
             let _ = cov.counters.insert("zero_timeout_pools_built_without_runtime".into(), s.zero_timeout_pools_built);
             let _ = cov.counters.insert("configs_without_runtime".into(), s.log.iter().filter(|l| l.contains("runtime=false")).count() as u64);
+            let _ = cov.counters.insert("violating_cases".into(), s.violations.len() as u64);
             let mut fs = Vec::new();
             for (v, j) in s.violations {
                 fs.push(Finding { sig: format!("C18/c18_sections/{}", v.oracle), v, replay: j });
